@@ -614,6 +614,26 @@ def mon_C15(md_lib, cfg, ops, impl, stats, r=None):
                 stats.nontrivial.add((op[0], tuple(cur.get(op[1], []))))
                 stats.dist[("object-op", op[0])] += 1
         prev = cur
+    # front-end data (journal of machine entries, a heap-allocated label) of every machine of the tree: a copy has the
+    # source's, a move-constructed object has what the source had before the move
+    raw = (r or {}).get("impl_raw") or []
+    prevd = None
+    for k, block in enumerate(raw):
+        op = ops[k] if k < len(ops) else None
+        d = {}
+        for l in block:
+            if l.startswith("#FDATA "):
+                _, obj, rest = l.split(" ", 2)
+                d.setdefault(obj, []).append(rest)
+        if op and op[0] in ("copy", "assign") and str(op[1]) in d and str(op[2]) in d:
+            stats.dist[("front-end data compared", op[0])] += 1
+            if d[str(op[1])] != d[str(op[2])]:
+                out.append("op %d %s: front-end data of object %d is %s, of its source %d it is %s" % (k, op[0], op[1], d[str(op[1])], op[2], d[str(op[2])]))
+        if op and op[0] == "move" and prevd is not None and str(op[1]) in d and str(op[2]) in prevd:
+            stats.dist[("front-end data compared", "move")] += 1
+            if d[str(op[1])] != prevd[str(op[2])]:
+                out.append("op %d move: front-end data of the move-constructed object %d is %s, the source %d held %s" % (k, op[1], d[str(op[1])], op[2], prevd[str(op[2])]))
+        prevd = d
     return out
 
 # ---- C16 --------------------------------------------------------------------------------------------
